@@ -74,19 +74,26 @@ def to_csv(form) -> str:
     return csv_of_sheets(sheets_of(form))
 
 
+def csv_field(v) -> str:
+    """minimal quoting as a spreadsheet program exports it (Python's writer leaves a lone CR unquoted when the line end is LF)"""
+    v = "" if v is None else str(v)
+    if any(ch in v for ch in ',"\r\n'):
+        return '"' + v.replace('"', '""') + '"'
+    return v
+
+
 def csv_of_sheets(sheets, cols=None, remark_key=None) -> str:
-    buf = io.StringIO(newline="")
-    w = csv.writer(buf, lineterminator="\n")
+    lines = []
     for name, head, rows in sheets:
         head = (cols or {}).get(name, head)
-        w.writerow([name])
-        w.writerow(["", *["" if h is None else h for h in head]])
+        lines.append([name])
+        lines.append(["", *["" if h is None else h for h in head]])
         for r in rows:
             cells = [("" if h is None or r.get(h) is None else r.get(h)) for h in head]
             if remark_key and remark_key in r:
                 cells[-1] = r[remark_key]
-            w.writerow(["", *cells])
-    return buf.getvalue()
+            lines.append(["", *cells])
+    return "".join(",".join(csv_field(c) for c in line) + "\n" for line in lines)
 
 
 def xlsx_row(ws, r, values):
